@@ -411,6 +411,27 @@ func c03Catalogue() []sProgram {
 				}
 			}
 		}
+		// one connection reads a key and then changes it (whatever the wrapper
+		// remembers about the key from the read must not weaken the write's lock),
+		// while another connection reads or writes the key
+		for _, w := range []wire.Kind{wire.Set, wire.Append, wire.Delete, wire.Gat, wire.Touch} {
+			for _, other := range []wire.Kind{wire.Get, wire.Set} {
+				for init := 1; init < 3; init++ {
+					for _, batch := range []bool{false, true} {
+						p := sProgram{Multi: multi, Conc: 0, Threads: [][]sCmd{
+							{{Kind: other, Keys: []string{"k"}}},
+							{{Kind: wire.Get, Keys: []string{"k"}, Batch: batch}, {Kind: w, Keys: []string{"k"}, Batch: batch}},
+						}}
+						if init == 1 {
+							p.Preset = []string{"k"}
+						} else {
+							p.L2Only = []string{"k"}
+						}
+						out = append(out, p)
+					}
+				}
+			}
+		}
 		// three connections on one key
 		for _, trio := range [][3]wire.Kind{{wire.Set, wire.Append, wire.Get}, {wire.Add, wire.Delete, wire.Get}, {wire.Append, wire.Append, wire.Gat}, {wire.Set, wire.Get, wire.Get}, {wire.Replace, wire.Delete, wire.Prepend}} {
 			out = append(out, sProgram{Multi: multi, Conc: 0, Preset: []string{"k"}, Threads: [][]sCmd{
